@@ -812,7 +812,9 @@ class Planner(object):
                 p.skip = 'clear-size'
                 return
             p.stmt = 'CLEAR ,%d,%d' % (mem, stack)
-            if mem < op.get('floor', 0) + stack:
+            # (the floor is an estimate made when the case was generated: add what typed and merged lines put on top)
+            grown = sum(e.get('len', 0) for e in m.prog.values())
+            if mem < op.get('floor', 0) + stack + grown:
                 # sizes that may not hold the program and the stack: CLEAR may refuse them (Out of memory);
                 # the model does not know the exact limit. What it leaves must be a consistent session.
                 p.lenient = True
@@ -1094,7 +1096,7 @@ def plan_prog(m, op, cfg):
         if not 0 <= n <= 65000 or prog.get(n, {}).get('k') in PROTECTED:
             return 'protected-line', None, None, None, None
         new = dict(prog)
-        new[n] = {'k': 'rem'}
+        new[n] = {'k': 'rem', 'len': len(text) + 8}
         return None, '%d %s' % (n, text), set(), new, None
     if k == 'pdelete':
         n = int(op['n'])
@@ -1120,7 +1122,7 @@ def plan_prog(m, op, cfg):
             n = int(n)
             if not 0 <= n <= 65000 or prog.get(n, {}).get('k') in PROTECTED:
                 return 'protected-line', None, None, None, None
-            new[n] = {'k': 'rem'}
+            new[n] = {'k': 'rem', 'len': len(text) + 12}
             out.append('%d REM %s\r\n' % (n, text))
         return None, 'MERGE "C:M.BAS"', set(), new, ''.join(out) + '\x1a'
     raise K.HarnessError('unknown program op %r' % (op,))
